@@ -494,9 +494,10 @@ pub fn honest_stmt(c: &Case, o: &Opened) -> Stmt {
 // C11: the recorded sponge log in the model's event vocabulary
 // ------------------------------------------------------------------------------------------------
 
+/// the bytes `serialize_to_vec!` produces for a group element (uncompressed)
 pub fn g1_bytes(p: &G1Affine) -> Vec<u8> {
     let mut b = vec![];
-    p.serialize_compressed(&mut b).unwrap();
+    p.serialize_uncompressed(&mut b).unwrap();
     b
 }
 
